@@ -99,6 +99,9 @@ func variadicAtoms() []OutsideAtom {
 
 // acceptedShapeAtoms: shapes goose translates without any error that the hand-written catalogue
 // did not have (found by listing the C07 catalogue constructs accepted silently).
+// AcceptedShapeAtoms is used by C01 as well: these are supported (accepted) shapes.
+func AcceptedShapeAtoms() []OutsideAtom { return acceptedShapeAtoms() }
+
 func acceptedShapeAtoms() []OutsideAtom {
 	st := func(id, code string) OutsideAtom {
 		return OutsideAtom{ID: "shape_" + id, Kind: "stmt", Code: code, Site: "accepted shape: " + id}
@@ -166,6 +169,19 @@ func acceptedShapeAtoms() []OutsideAtom {
 		st("const_on_left_eq", "if 3 == x {\n\t\tx += 100\n\t}\n\tif 4 != x {\n\t\tx += 1000\n\t}\n\tif 3 <= x {\n\t\tx += 7\n\t}\n\tif 3 > x {\n\t\tx += 9\n\t}"),
 		st("uint64_to_string", "x += uint64(len(machine.UInt64ToString(x)))"),
 		st("uint64_to_string_big", "if machine.UInt64ToString(x+18446744073709551000) == machine.UInt64ToString(x) {\n\t\tx += 1\n\t}\n\tx += uint64(len(machine.UInt64ToString(x + 9223372036854775808)))"),
+		st("named_byteslice_conv", "nb := Bytes(bs)\n\tnb[0] = 7\n\tpl := []byte(nb)\n\tpl[1] = 9\n\tx += uint64(bs[0]) + uint64(bs[1]) + uint64(len(pl))"),
+		st("named_byteslice_conv_call", "x += uint64(len([]byte(Bytes(bs)))) + uint64(len(Bytes([]byte(bs))))"),
+		st("named_string_conv", "k := Key(str)\n\tst2 := string(k)\n\tx += uint64(len(st2)) + uint64(len(k))"),
+		st("string_bytes_roundtrip", "b2 := []byte(str)\n\tb2[0] = 65\n\tst2 := string(b2)\n\tx += uint64(len(st2)) + uint64(b2[0]) + uint64(len(str))"),
+		st("named_map_conv", "sn := Seen(make(map[uint64]bool))\n\tsn[3] = true\n\tif sn[3] {\n\t\tx += 2\n\t}"),
+		dc("tail_block_return", "func ID_fn(a uint64) uint64 {\n\tx := a + 2\n\t{\n\t\ty := x + 1\n\t\treturn y - 1\n\t}\n}"),
+		dc("tail_block_return_in_if", "func ID_fn(a uint64) uint64 {\n\tif a > 2 {\n\t\t{\n\t\t\ty := a + 1\n\t\t\treturn y * 2\n\t\t}\n\t}\n\treturn a\n}"),
+		dc("tail_block_break_in_loop", "func ID_fn(a uint64) uint64 {\n\tvar i uint64 = 0\n\tfor {\n\t\ti = i + 1\n\t\t{\n\t\t\tif i > a%5 {\n\t\t\t\tbreak\n\t\t\t}\n\t\t}\n\t}\n\treturn i\n}"),
+		dc("tail_block_continue_in_loop", "func ID_fn(a uint64) uint64 {\n\tvar t uint64 = 0\n\tfor i := uint64(0); i < 4; i++ {\n\t\tt = t + i\n\t\t{\n\t\t\tif i == a%4 {\n\t\t\t\tcontinue\n\t\t\t}\n\t\t\tt = t + 10\n\t\t}\n\t}\n\treturn t\n}"),
+		dc("tail_block_in_closure", "func ID_fn(a uint64) uint64 {\n\tf := func(v uint64) uint64 {\n\t\t{\n\t\t\tw := v * 3\n\t\t\treturn w + 1\n\t\t}\n\t}\n\treturn f(a)\n}"),
+		dc("tail_block_void", "func ID_h(p *uint64) {\n\t*p = *p + 1\n\t{\n\t\t*p = *p * 2\n\t}\n}\n\nfunc ID_fn(a uint64) uint64 {\n\tv := new(uint64)\n\t*v = a\n\tID_h(v)\n\treturn *v\n}"),
+		dc("tail_if_else_return", "func ID_fn(a uint64) uint64 {\n\tif a > 3 {\n\t\treturn a - 3\n\t} else {\n\t\treturn a + 30\n\t}\n}"),
+		dc("tail_nested_if_return", "func ID_fn(a uint64) uint64 {\n\tif a > 3 {\n\t\tif a > 6 {\n\t\t\treturn 1\n\t\t}\n\t\treturn 2\n\t}\n\treturn 3\n}"),
 		dc("blank_param", "func ID_h(_ uint64, b uint64) uint64 {\n\treturn b + 1\n}\n\nfunc ID_fn(a uint64) uint64 {\n\treturn ID_h(a, a+2)\n}"),
 		dc("blank_params_two", "func ID_h(_ uint64, b uint64, _ bool) uint64 {\n\treturn b + 1\n}\n\nfunc ID_fn(a uint64) uint64 {\n\treturn ID_h(a, a+2, true)\n}"),
 		dc("unnamed_params", "func ID_h(uint64, bool) uint64 {\n\treturn 7\n}\n\nfunc ID_fn(a uint64) uint64 {\n\treturn ID_h(a, true) + a\n}"),
